@@ -359,6 +359,35 @@ def check_reject(ctx, out):
                                 some_g = True
             if none_g and some_g:
                 err_ok = True
+    if not err_ok:
+        # (iii) membership by a scan: `if names().any(|n| n == value) { return Ok(..) } Err(..)`: the Err is built
+        # when the scan of the registered names is exhausted, and the scan is left early only on a hit, to Ok
+        pcfg = cfg_of(pvs)
+        from rules.C12 import only_err_from, err_blocks
+        for bi, j, s in pvs.assigns():
+            rv = s["rv"]
+            if not (s["lhs"]["l"] in slots and rv["k"] == "agg" and rv.get("variant") == "Err" and rv.get("path") == "std::result::Result"):
+                continue
+            for br, vals, e in util.guards(ctx, pvs, bi):
+                if e[0] == "discr" and e[1][0] == "call" and re.search(r"Iterator>?::next$", e[1][1]) and vals == {0} and len(e[1]) > 3:
+                    h = pcfg.innermost_loop(e[1][3])
+                    if h is None:
+                        continue
+                    blocks = pcfg.loops()[h]
+                    hit_exits_ok = True
+                    n_hit = 0
+                    for x, y in util.loop_exits(pvs, pcfg, blocks):
+                        if x == br:
+                            continue
+                        gsx = [(vv, ee) for bb2, vv, ee in util.guards(ctx, pvs, y) if bb2 in blocks]
+                        is_hit = any(is_contains(ee) and 0 not in vv for vv, ee in gsx)
+                        reaches_err = bool(pcfg.reach(y) & err_blocks(ctx, pvs))
+                        if is_hit and not reaches_err:
+                            n_hit += 1
+                        else:
+                            hit_exits_ok = False
+                    if n_hit and hit_exits_ok and util.arm_only_err(ctx, pvs, br, vals):
+                        err_ok = True
     if err_ok:
         n += 1
     else:
@@ -400,6 +429,49 @@ def check_reject(ctx, out):
                             out.viol("C14.reject", "C14.reject|both-flags-weakened", ctx.where(av, s["span"]),
                                      "using --enable and --disable together is rejected only under a further condition")
                             found = True
+        if not found:
+            # written through flags / `ensure!(!(a && b))`: decide the condition of every Err exit as a boolean
+            # function of the two emptiness tests (engine/boolcond.py) - some Err must be returned exactly
+            # when both lists are non-empty (other tests, e.g. the -E mapping scan, having passed)
+            from engine.boolcond import BoolCond, truth_table
+            avs = ctx.inl(av, skip=ctx.domain_api, tag="domain", sugar=True)
+            bc = BoolCond(ctx, avs)
+
+            def classify(a):
+                txt = render(a["expr"], 500) if a.get("expr") is not None else a["name"]
+                if a["kind"] == "call" and re.search(r"is_empty$", a["name"]):
+                    if "disabled_validators" in txt:
+                        return "d_empty"
+                    if "enabled_validators" in txt:
+                        return "e_empty"
+                if a["kind"] == "discr" and re.search(r"Iterator>?::next", txt):
+                    return 0 in a.get("vals", ())       # the scan of the -E mappings ran to its end
+                if a["kind"] == "discr" and re.search(r"Try>::branch", txt):
+                    return 0 in a.get("vals", ())
+                return None
+            slots = util.return_slots(avs)
+            reach = cfg_of(avs).reachable
+            for bi, j, s in avs.assigns():
+                rv = s["rv"]
+                if bi in reach and s["lhs"]["l"] in slots and not s["lhs"]["p"] and rv["k"] == "agg" and rv.get("variant") == "Err":
+                    f = bc.site(bi)
+                    try:
+                        table, names, free = truth_table(bc, f, classify)
+                    except ValueError:
+                        continue
+                    if set(names) != {"d_empty", "e_empty"}:
+                        continue
+                    good = all(res == {(not dict(val)["d_empty"]) and (not dict(val)["e_empty"])} or (len(res) == 2 and not ((not dict(val)["d_empty"]) and (not dict(val)["e_empty"])) and False)
+                               for val, res in table.items())
+                    # unknowns (the mapping test itself) may only make the Err *less* likely on the other rows, never hide it on the both-set row
+                    both = table.get((("d_empty", False), ("e_empty", False)))
+                    others_never = all(True not in res for val, res in table.items() if dict(val)["d_empty"] or dict(val)["e_empty"])
+                    if good or (both == {True} and others_never):
+                        found = True
+                    elif both is not None and True in both and others_never:
+                        out.viol("C14.reject", "C14.reject|both-flags-weakened", ctx.where(av, s["span"]),
+                                 "using --enable and --disable together is rejected only under a further condition (%s)" % [a["name"][:50] for a in free][:3])
+                        found = True
         if found:
             n += 1
         else:
